@@ -1,4 +1,5 @@
 import Memterm.Proofs.InvStep
+import Memterm.Proofs.SparseStep
 import Memterm.Spec.C06
 import Memterm.Proofs.DrawFrame
 
@@ -413,6 +414,22 @@ example :
     let s5 := cursorDown (setMargins s4 (some 2) (some 3)) (some 9)
     s5.cursor.y = 2 ∧ display env (index s5) = [[97, 32], [99, 32], [32, 32], [100, 32]] := by
   decide
+
+/-! #### the sparse layer: row re-keying -/
+
+theorem sparse_index (ss : Sparse.SScreen) (h : Inv (Sparse.abs ss)) :
+    Sparse.abs (Sparse.index ss) = index (Sparse.abs ss) := Sparse.abs_index ss h
+
+theorem sparse_reverseIndex (ss : Sparse.SScreen) (h : Inv (Sparse.abs ss)) :
+    Sparse.abs (Sparse.reverseIndex ss) = reverseIndex (Sparse.abs ss) := Sparse.abs_reverseIndex ss h
+
+/-- the descending remove / insert loop of IL, on a row map in which any row may be absent -/
+theorem sparse_il (ss : Sparse.SScreen) (n : Option Nat) :
+    Sparse.abs (Sparse.insertLines ss n) = insertLines (Sparse.abs ss) n := Sparse.abs_insertLines ss n
+
+/-- the ascending loop of DL (an absent source row removes the target) -/
+theorem sparse_dl (ss : Sparse.SScreen) (n : Option Nat) :
+    Sparse.abs (Sparse.deleteLines ss n) = deleteLines (Sparse.abs ss) n := Sparse.abs_deleteLines ss n
 
 end C06
 end Memterm
